@@ -466,6 +466,8 @@ class Table(JupyterMixin):
                 ]
                 flexible_width = max_width - sum(fixed_widths)
                 flex_widths = ratio_distribute(flexible_width, ratios, flex_minimum)
+                # A trailing zero-ratio column is handed what is left: negative when there is no room
+                flex_widths = [max(0, width) for width in flex_widths]
                 iter_flex_widths = iter(flex_widths)
                 for index, column in enumerate(columns):
                     if column.flexible:
